@@ -31,10 +31,19 @@ func (u regUser) pb() *appctlpb.User {
 	return &appctlpb.User{Name: proto.String(u.Name), HashedPassword: proto.String(hex.EncodeToString(u.Hashed))}
 }
 
+// usersMapKeyedByID: when set, the user map handed to the registry is keyed by
+// an opaque id instead of the user name (the registry takes the name from the
+// record; embedders are free in how they key the map).
+var usersMapKeyedByID bool
+
 func usersToMap(us []regUser) map[string]*appctlpb.User {
 	m := map[string]*appctlpb.User{}
-	for _, u := range us {
-		m[u.Name] = u.pb()
+	for i, u := range us {
+		if usersMapKeyedByID {
+			m[fmt.Sprintf("uid-%04d", 1000+i)] = u.pb()
+		} else {
+			m[u.Name] = u.pb()
+		}
 	}
 	return m
 }
@@ -149,6 +158,8 @@ func modelDecide(users []regUser, pkt []byte, unix int64, mandatory bool) (accep
 
 func c07RegistryCase(c *Ctx) *Result {
 	r := rngFor(c.Seed, "C07", c.Idx)
+	usersMapKeyedByID = c.Idx%4 == 3
+	defer func() { usersMapKeyedByID = false }()
 	n := pick(r, 1, 2, 3, 5, 17, 20, 40)
 	shared := r.Intn(3) == 0
 	mandatory := r.Intn(2) == 0
